@@ -901,6 +901,7 @@ def r7(ctx: Ctx):
       for name, nd in _nested(fi.node).items():
         targets.append(FuncInfo(fi.module, f'{fi.qualname}.{name}', nd, fi.cls))
   n = 0
+  revalidates = _release_revalidates(repo)
   for fi in targets:
     if fi.cls is not None and fi.cls.name == 'Worker':
       continue
@@ -910,11 +911,16 @@ def r7(ctx: Ctx):
       for x in cfgm.node_exprs(nd):
         for c in ast.walk(x):
           if isinstance(c, ast.Call) and isinstance(c.func, ast.Attribute) and c.func.attr == 'release' and (
-              not c.args) and isinstance(c.func.value, ast.Name) and 'lock' not in c.func.value.id.lower():
+              isinstance(c.func.value, ast.Name)) and 'lock' not in c.func.value.id.lower():
             var = c.func.value.id
             if (id(c), 0) in seen_calls:
               continue
             n += 1
+            if (c.args or c.keywords) and revalidates:
+              # the release names its owner and Worker.release re-validates it under the state lock (R-C20-12)
+              seen_calls.add((id(c), 0))
+              ctx.ok(rule, fi, f'{fi.qualname}: {unparse(c)} is validated by the callee', c)
+              continue
             if all(_owned_at(g, var, nd2) for nd2 in g.nodes
                    if any(c is c2 for x2 in cfgm.node_exprs(nd2) for c2 in ast.walk(x2))):
               seen_calls.add((id(c), 0))
@@ -1005,9 +1011,9 @@ def r12(ctx: Ctx):
   ctx.rule(rule, '"a pool can only release workers it owns or that are free ... for all concurrent sequences of'
            ' acquire/release calls from several pools and threads": an availability test is not an ownership fact —'
            ' is_available(pool) also holds for a FREE worker, and between that test and the release another pool can'
-           ' acquire it. So (a) a `w.release()` WITHOUT an owner argument needs a stable fact for w (true edge of'
-           ' acquire_by / is_locked(pool), an acquiring next_idle_worker, a container of such workers); a release that'
-           ' rests on is_available alone hands the pool to Worker.release; and (b) Worker.release re-validates: with'
+           ' acquire it; and an acquire earlier on the path is not lasting either (another thread of the same pool may'
+           ' release_all() while this one waits). So (a) EVERY `w.release(...)` of the pool / orchestration code names the'
+           ' releasing pool; and (b) Worker.release re-validates: with'
            ' an owner given, every path to `self._lock.release()` passes — inside the `with self._states_lock` block —'
            ' the owning edge of a test of `self._worker_pool` against that owner')
   repo = ctx.repo
@@ -1050,8 +1056,16 @@ def r12(ctx: Ctx):
             _OWN_TESTS = _ALL_OWN_TESTS
           passes_owner = bool(c.args or c.keywords)
           what = f'{fi.qualname}: {var}.release() atomically tied to ownership'
-          if stable:
-            ctx.ok(rule, fi, what, c)
+          if stable and not passes_owner:
+            # An acquire earlier on the path is no LASTING fact either: another thread of the same pool can run
+            # release_all() (every pool-level operation does, in its finally) while this one waits for a result,
+            # a second pool acquires the free worker, and this release then frees that pool's worker.
+            ctx.fail(rule, fi, what,
+                     f'{fi.qualname} calls `{unparse(c)}` without naming the releasing pool. The worker was acquired earlier on'
+                     ' this path, but that is not a lasting fact: while this thread waits (for a result, a batch) another'
+                     ' thread of the same pool may release_all(), a second pool acquires the worker, and this unconditional'
+                     ' release frees it under that pool\'s feet. Pass the pool: `release(<pool>)` is re-validated under the'
+                     ' worker\'s state lock', node=c)
           elif passes_owner:
             needs_callee.append((fi, c, var))
             if revalidates:
@@ -1312,6 +1326,12 @@ _U = 'utils/courier_utils.py'
 _W = 'chainables/courier_worker.py'
 _O = 'chainables/orchestrate.py'
 VARIANTS = [
+    B('revert-run-releases-without-naming-the-pool', _W,
+      '      result = worker.submit(task).result()\n    finally:\n      worker.release(self)\n    return result',
+      '      result = worker.submit(task).result()\n    finally:\n      worker.release()\n    return result', 'R-C20-12'),
+    OK('release-of-an-unacquired-worker-names-the-pool', _W,
+       '      if worker.acquire_by(self):\n        if worker.has_capacity and worker.is_alive:\n          return worker\n        # Do not keep a worker that was acquired but cannot be used.\n        worker.release(self)',
+       '      if not (worker.has_capacity and worker.is_alive):\n        worker.release(self)\n        continue\n      if worker.acquire_by(self):\n        return worker'),
     B('revert-singleton-lookup-and-insert-unlocked', 'utils/func_utils.py',
       "    with cls._instances_lock:\n      if (ref := cls._instances.get(obj, None)) and (\n          result := ref()\n      ) is not None:\n        return result\n      logging.info('chainable: %s', f'singleton {cls.__name__}, {obj}')\n      cls._instances[obj] = weakref.ref(obj)\n    return obj",
       "    if (ref := cls._instances.get(obj, None)) and (result := ref()) is not None:\n      return result\n    logging.info('chainable: %s', f'singleton {cls.__name__}, {obj}')\n    cls._instances[obj] = weakref.ref(obj)\n    return obj", 'R-C20-14'),
@@ -1326,10 +1346,10 @@ VARIANTS = [
       '            _worker_registry.refresh(self.address, state_and_time.time)',
       '            if state_and_time is self._heartbeat:\n              _worker_registry.register(self.address, state_and_time.time)\n            else:\n              _worker_registry.refresh(self.address, state_and_time.time)', 'R-C20-11'),
     B('stage-loop-release-after-raising-call', 'chainables/orchestrate.py',
-      '            del iterating[worker]\n            worker.release()\n            if exc := state.exception():\n              logging.exception(\n                  \'chainable: %s\',\n                  f\'worker {worker} failed with exception: {type(exc)}, {exc}\',\n              )\n              worker_exceptions.append(exc)',
+      '            del iterating[worker]\n            worker.release(worker_pool)\n            if exc := state.exception():\n              logging.exception(\n                  \'chainable: %s\',\n                  f\'worker {worker} failed with exception: {type(exc)}, {exc}\',\n              )\n              worker_exceptions.append(exc)',
       '            del iterating[worker]\n            if exc := state.exception():\n              logging.exception(\n                  \'chainable: %s\',\n                  f\'worker {worker} failed with exception: {type(exc)}, {exc}\',\n              )\n              worker_exceptions.append(exc)\n            worker.release()', 'R-C20-6'),
     OK('stage-loop-release-before-removal', 'chainables/orchestrate.py',
-       '            del iterating[worker]\n            worker.release()', '            worker.release()\n            del iterating[worker]'),
+       '            del iterating[worker]\n            worker.release(worker_pool)', '            worker.release(worker_pool)\n            del iterating[worker]'),
     B('unregister-skips-unknown-address', 'utils/courier_utils.py',
       '      # Set to None as the worker has pronouced dead.\n      self.data[address] = None',
       '      if address not in self.data:\n        return\n      self.data[address] = None', 'R-C20-3'),
@@ -1346,7 +1366,7 @@ VARIANTS = [
        '      courier_utils.worker_registry().register(\n          sender_addr, self._last_heartbeat\n      )',
        '      courier_utils.worker_registry().register(sender_addr, time.time())'),
     B('release-before-acquire-in-next-idle-worker', _W,
-      '      if worker.acquire_by(self):\n        if worker.has_capacity and worker.is_alive:\n          return worker\n        # Do not keep a worker that was acquired but cannot be used.\n        worker.release()',
+      '      if worker.acquire_by(self):\n        if worker.has_capacity and worker.is_alive:\n          return worker\n        # Do not keep a worker that was acquired but cannot be used.\n        worker.release(self)',
       '      if not (worker.has_capacity and worker.is_alive):\n        worker.release()\n        continue\n      if worker.acquire_by(self):\n        return worker',
       'R-C20-7'),
     B('release-all-unconditional', _W,
@@ -1409,20 +1429,20 @@ VARIANTS = [
       '      result = get_results(states)\n    except Exception as e:  # pylint: disable=broad-exception-caught\n      raise e\n    self.release_all()\n    return result',
       'R-C20-6'),
     B('next-idle-keeps-unfit', _W,
-      '        # Do not keep a worker that was acquired but cannot be used.\n        worker.release()\n',
+      '        # Do not keep a worker that was acquired but cannot be used.\n        worker.release(self)\n',
       '', 'R-C20-6'),
     B('run-release-only-on-success', _W,
-      '      result = worker.submit(task).result()\n    finally:\n      worker.release()\n    return result',
-      '      result = worker.submit(task).result()\n    except ValueError:\n      raise\n    worker.release()\n    return result',
+      '      result = worker.submit(task).result()\n    finally:\n      worker.release(self)\n    return result',
+      '      result = worker.submit(task).result()\n    except ValueError:\n      raise\n    worker.release(self)\n    return result',
       'R-C20-6'),
     B('as-completed-release-only-at-end', _O,
       '  finally:\n    worker_pool.release_all()\n',
       '  except KeyboardInterrupt:\n    raise\n  worker_pool.release_all()\n', 'R-C20-6'),
     B('stage-runner-no-finally', _O,
-      '    finally:\n      # Workers still iterating when the stage fails must not stay acquired.\n      for worker in iterating:\n        worker.release()\n',
+      '    finally:\n      # Workers still iterating when the stage fails must not stay acquired.\n      for worker in iterating:\n        worker.release(worker_pool)\n',
       '    except KeyboardInterrupt:\n      raise\n', 'R-C20-6'),
     OK('run-release-through-pool', _W,
-       '      result = worker.submit(task).result()\n    finally:\n      worker.release()\n    return result',
+       '      result = worker.submit(task).result()\n    finally:\n      worker.release(self)\n    return result',
        '      result = worker.submit(task).result()\n    finally:\n      self.release_all([worker])\n    return result'),
     OK('refresh-max-arg-order', _U, '        self.data[address] = max(last_time, time_)',
        '        self.data[address] = max(time_, last_time)'),
